@@ -113,6 +113,11 @@ def _record_shipped(path: str, tier: str, prop: str, res: Result, early=None) ->
     inputs += [b"get " + ul[i] + b" now" for i in range(0, len(ul), max(1, len(ul) // (40 if tier == "quick" else 400)))]
     if prop == "C08":
         inputs += drivers.deep_paren_sweep()
+    from .props_net import mini_pe
+
+    # an embedded PE far behind the start of the text (offset larger than its own size), a cmd line with doubly escaped carets
+    inputs += [bytes(2500) + mini_pe(1, 0, rng), b"x" * 4000 + mini_pe(2, 0, rng) + b" tail",
+               b"cmd /c e^^cho h^^ttp://evil-site.net/a.exe ^^^& calc", b"run: c^md /c p^^ing 10.1.2.3 ^^^| find x"]
     from .props_total import pe_grid      # truncated / malformed / embedded PE headers (spans that tempt a decoder past the end of its text)
 
     grid = pe_grid(rng, tier)
